@@ -5,3 +5,17 @@ package engines
 import "sort"
 
 func sortStrings(s []string) { sort.Strings(s) }
+
+func tailStr(a []string, n int) []string {
+	if len(a) > n {
+		return a[len(a)-n:]
+	}
+	return a
+}
+
+func min(a, b int) int {
+	if a < b {
+		return a
+	}
+	return b
+}
